@@ -204,6 +204,9 @@ func (j jspec) label() string {
 			s += fmt.Sprintf("dra:%d", t.N)
 		}
 		s += fmt.Sprintf("/cpu%d/mem%d/node%d", t.CPUm, t.MemMB, t.NodeMem)
+		if t.State != "" {
+			s += "=" + t.State
+		}
 	}
 	return s + "]"
 }
